@@ -58,7 +58,7 @@ for f in sorted(glob.glob(f"{V}/corpus/{ID}/*.json")):
 for f in glob.glob(f"{REPO}/tests/entry/*.rs") + [f"{REPO}/tests/entry.rs"]:
     for q in re.findall(r'(?:assert_query|query)!\(\s*"([^"]+)"', open(f).read()):
         seed(q)
-cmd = [exe, f"{work}/corpus", f"-runs={RUNS}", f"-seed={SEED}", "-len_control=0", "-max_len=256", "-timeout=60",
+cmd = [exe, f"{work}/corpus", f"-runs={RUNS}", f"-seed={SEED}", "-len_control=0", "-max_len=256", "-timeout=300",
        "-rss_limit_mb=6000", "-malloc_limit_mb=3000", "-detect_leaks=0", f"-artifact_prefix={work}/artifacts/", "-print_final_stats=1"]
 r = subprocess.run(cmd, capture_output=True, text=True, errors="replace", env=dict(env, ASAN_OPTIONS="detect_leaks=0"))
 log = r.stderr
